@@ -335,7 +335,7 @@ class SimUser:
         base -= base % w
         k = r.random()
         if k < 0.25:
-            return r.choice([str(base), hex(base)])
+            return r.choice([str(base), hex(base), str(base).zfill(len(str(base)) + r.choice([1, 2])), '0X%X' % base])
         if k < 0.45 and labels:
             return r.choice(labels)
         if k < 0.7:
